@@ -7,6 +7,7 @@ import (
 	"verif/dsim/props/c05"
 	"verif/dsim/props/c09"
 	"verif/dsim/props/c10"
+	"verif/dsim/props/c14emu"
 	"verif/dsim/props/c15"
 	"verif/dsim/props/c16"
 	"verif/dsim/props/c17"
@@ -19,7 +20,7 @@ func main() {
 	reg := map[string]harness.Harness{
 		"C01": harness.External{Property: "C01", Ver: "c01-v1", M: plat.C01Meta(), Quick: 960, Thor: 30000, Bin: "plat.test", TestName: "TestJob", Classify: plat.ClassifyExitC01},
 		"C02": harness.External{Property: "C02", Ver: "c02-v4", M: plat.C02Meta(), Quick: 480, Thor: 12000, Bin: "plat.test", TestName: "TestJob", Classify: plat.ClassifyExit},
-		"C05": c05.H{Child: harness.External{Property: "C05", ChildKey: "C11", Ver: "c05-child-v3", M: plat.C11Meta(), Bin: "plat.test", TestName: "TestJob", Classify: plat.ClassifyExit}},
+		"C05": c05.H{Child: harness.External{Property: "C05", ChildKey: "C11", Ver: "c05-child-v4", M: plat.C11Meta(), Bin: "plat.test", TestName: "TestJob", Classify: plat.ClassifyExit}},
 		"C08": harness.Multi{Property: "C08", Parts: []harness.Harness{
 			harness.External{Property: "C08", Ver: "c08-plat-v1", M: plat.C08Meta(), Quick: 400, Thor: 20000, Bin: "plat.test", TestName: "TestJob", Classify: plat.ClassifyExit},
 			c09.H{Filters: true, Prop: "C08"},
@@ -28,7 +29,10 @@ func main() {
 		"C10": c10.H{},
 		"C11": harness.External{Property: "C11", Ver: "c11-v7", M: plat.C11Meta(), Quick: 600, Thor: 20000, Bin: "plat.test", TestName: "TestJob", Classify: plat.ClassifyExit},
 		"C12": harness.External{Property: "C12", Ver: "c12-v5", M: plat.C12Meta(), Quick: 2400, Thor: 60000, Bin: "plat.test", TestName: "TestJob", Classify: plat.ClassifyExit},
-		"C14": harness.External{Property: "C14", Ver: "c14-v3", M: plat.C14Meta(), Quick: 800, Thor: 20000, Bin: "plat.test", TestName: "TestJob", Classify: plat.ClassifyExit},
+		"C14": harness.Multi{Property: "C14", Parts: []harness.Harness{
+			harness.External{Property: "C14", Ver: "c14-v3", M: plat.C14Meta(), Quick: 800, Thor: 20000, Bin: "plat.test", TestName: "TestJob", Classify: plat.ClassifyExit},
+			c14emu.H{},
+		}, Weights: []int{1, 10}, Quick: 8800, Thor: 220000},
 		"C15": c15.H{},
 		"C16": c16.H{},
 		"C17": c17.H{},
